@@ -51,8 +51,8 @@
 (*          the update, "a" with (apply prim args) on an argument list     *)
 (*          that is observed afterwards, "m" with (map (lambda (p) ...))   *)
 (*          over a list that is observed afterwards, "k" directly, with a  *)
-(*          continuation captured while                                    *)
-(*          the operand is an evaluated temporary: the update runs three   *)
+(*          continuation captured while the operand is an evaluated        *)
+(*          temporary on the stack: the update runs three                  *)
 (*          times (with the alternative trailing argument `alt`, then -    *)
 (*          after re-entering the continuation - with `alt` again, then -  *)
 (*          after re-entering it once more - with the real one)            *)
@@ -97,7 +97,7 @@
 (*  D6  pairs, lists and strings are immutable values (Steel docs): cons / *)
 (*      append / string-append results may share structure with their      *)
 (*      arguments; sharing is unobservable in the model                    *)
-(* Steel behaviours the RENDERING avoids because they belong to other       *)
+(* Steel behaviours the RENDERING avoids because they belong to other      *)
 (* properties (they were hit while building this check): calls with more   *)
 (* than 8 arguments inside a JIT-compiled function (constructors are       *)
 (* chunked, see SrcIntsC); parameterize re-evaluates its value expression  *)
